@@ -37,6 +37,11 @@ def check_case(acc, case, label, key):
     acc.cls('outcome:' + outcome(pre, post, excs))
     if bad is not None:
         acc.violation(bucket(bad), case, {'exception': repr(bad), 'label': label})
+        return bad
+    # a step or an injected exception entry that replaces a register object by a plain value has planted a host error for whoever touches it next
+    replaced = sorted({k for p in posts for k, v in p.items() if isinstance(v, str) and v.startswith('TYPE-CHANGED')})
+    if replaced:
+        acc.violation('C18:register-object-replaced:' + '+'.join(replaced), case, {'attributes': replaced, 'label': label})
     return bad
 
 
